@@ -468,10 +468,16 @@ func main() {
 	mode := flag.String("mode", "seq", "seq | conc")
 	replay := flag.String("replay", "", "replay file")
 	maxSess := flag.Int("sessions", 6, "max sessions per history")
+	exhLen := flag.Int("len", 4, "mode exh: maximal history length")
+	exhCoq := flag.Int("coq", 1500, "mode exh: at most this many histories are replayed against the Coq model")
 	flag.Parse()
 	seed := hutil.SeedFromEnv()
 	if *replay != "" {
 		os.Exit(doReplay(*replay, *prop))
+	}
+	if *mode == "exh" {
+		exhMain(*out, *prop, *exhLen, *exhCoq, seed)
+		return
 	}
 	if *mode == "conc" {
 		if os.Getenv("VERIF_CONC_CHILD") == "" {
